@@ -196,7 +196,7 @@ func c18Addr(c *harness.Check, cs addrCase) string {
 
 func TestC18_Addressing(t *testing.T) {
 	c := harness.New(t, "C18", "addressing",
-		"directory trees over names {a, b, idx} at depths {., sub, sub/deep, d<ext>/} with decoys whose names merely contain the extension (a<ext>.bak, a<ext>ig, n.txt inside a directory named x<ext>, a<ext><ext>, the bare extension) and garbage in decoys; template directory nested one or two levels and spelled t, t/, ./t, x/../t, t//, /t, t/sub/.., t/sub/../, t/., x/./../t (directory names may begin or end with a dot); extensions .tw, .tw.html, .html; one case in six leaves the directory, the extension, both or the whole configuration out (the documented defaults \"templates\" and \".tw.html\" apply). Oracle: the registered names (hook VerifNames) are exactly {relative path minus extension of every file whose name ends in the extension}; each renders its own content (files that use each other as components - chains, cycles, themselves - only have to load and be registered); decoys, unknown names and layouts (files with reserves) are reported as not found; EvaluateFile(path) == EvaluateString(content). Non-trivial: a nested directory, a decoy and a non-canonical spelling or a defaulted configuration. Distinct by hash.")
+		"directory trees over names {a, b, idx, a.b, tw, names with a backslash, a blank or a percent sign} at depths {., sub, sub/deep, d<ext>/} with decoys whose names merely contain the extension (a<ext>.bak, a<ext>ig, n.txt inside a directory named x<ext>, a<ext><ext>, the bare extension) and garbage in decoys; template directory nested one or two levels and spelled t, t/, ./t, x/../t, t//, /t, t/sub/.., t/sub/../, t/., x/./../t (directory names may begin or end with a dot); extensions .tw, .tw.html, .html; one case in six leaves the directory, the extension, both or the whole configuration out (the documented defaults \"templates\" and \".tw.html\" apply). Oracle: the registered names (hook VerifNames) are exactly {relative path minus extension of every file whose name ends in the extension}; each renders its own content (files that use each other as components - chains, cycles, themselves - only have to load and be registered); decoys, unknown names and layouts (files with reserves) are reported as not found; EvaluateFile(path) == EvaluateString(content). Non-trivial: a nested directory, a decoy and a non-canonical spelling or a defaulted configuration. Distinct by hash.")
 	defer c.Finish()
 	runRapid(t, c, 2000, 24000, func(rt *rapid.T) {
 		ext := rapid.SampledFrom([]string{".tw", ".tw.html", ".html"}).Draw(rt, "ext")
@@ -239,7 +239,9 @@ func TestC18_Addressing(t *testing.T) {
 		nested, decoy := false, false
 		for i := 0; i < nFiles; i++ {
 			sub := rapid.SampledFrom([]string{"", "sub/", "sub/deep/", "d" + ext + "/"}).Draw(rt, "sub")
-			base := rapid.SampledFrom([]string{"a", "b", "idx", "a.b", "tw"}).Draw(rt, "base")
+			// (a backslash is an ordinary character of a file name here, not a separator: "sub\\b" in the
+			// directory itself is another file than "b" in the directory sub)
+			base := rapid.SampledFrom([]string{"a", "b", "idx", "a.b", "tw", "sub\\b", "x\\y", "q r", "50%"}).Draw(rt, "base")
 			p := realDir + "/" + sub + base + ext
 			content := "FILE:" + sub + base
 			// a file is its bytes: a byte order mark, a carriage return, a final line break are text like any other
